@@ -220,6 +220,39 @@ def apply_edit(kind, obj, rng):
     return None
 
 
+def provoke(rng, kinds=None):
+    """things that go WRONG in a process, all caught by the caller, none of which may leave anything behind in the library
+    (module-level buffers, counters, registries, class-level caches): an encode refused because of a label that cannot be
+    written, a decode of truncated bytes, a decode with a format code the reader does not implement, a constructor call with a
+    wrong argument. Returns what was provoked (for the evidence)."""
+    kind = rng.choice(kinds or A.KINDS)
+    what = rng.choice(["encode-bad-label", "encode-bad-label", "encode-into-failing-sink", "decode-truncated", "decode-bad-format", "constructor-bad-argument"])
+    try:
+        v = A.GEN[kind](rng)
+        obj = A.build(kind, v)
+        if what == "encode-bad-label":
+            its = [it for it, _ in items_of(kind, obj) if hasattr(it, "label")]
+            if not its:
+                return provoke(rng, kinds=[k for k in (kinds or A.KINDS) if k in ("data3d", "emg", "force3d", "events", "platcalib")] or None) if kinds != [kind] else f"{what}:{kind}:no-items"
+            its[-1].label = rng.choice(["\u529b", "L" * 300])
+            A.encode(obj)
+        elif what == "encode-into-failing-sink":
+            class Sink(io.BytesIO):
+                def write(self, b):
+                    raise OSError("disk full")
+            obj._write(Sink())
+        elif what == "decode-truncated":
+            enc = A.encode(obj)
+            A.klass(kind)._build(io.BytesIO(enc[:rng.randrange(0, max(1, len(enc) - 1))]), obj.format.value)
+        elif what == "decode-bad-format":
+            A.klass(kind)._build(io.BytesIO(A.encode(obj)), rng.choice([0, 3, 4, 7, 99]))
+        else:
+            A.klass(kind)(*([None] * rng.randrange(0, 4)))
+    except BaseException:
+        pass
+    return f"{what}:{kind}"
+
+
 def lifecycle(kind, v, rng, n_edits=2, wide=False, vpstyle=0):
     """build once, use (print / size / encode / decode), then edit IN PLACE and use again, n_edits times.
     returns [(abstract value of the object at that moment, description, observation)]; the first element is the fresh object"""
@@ -229,6 +262,8 @@ def lifecycle(kind, v, rng, n_edits=2, wide=False, vpstyle=0):
         return [(v, "fresh", dict(stage="build", exc=f"{type(e).__name__}: {e}"))]
     out = [(v, "fresh", observe_obj(kind, obj, touch=True))]
     for _ in range(n_edits):
+        if rng.random() < 0.3:
+            provoke(rng)          # something fails elsewhere in the process in between
         try:
             what = apply_edit(kind, obj, rng)
         except Exception as e:
